@@ -452,6 +452,14 @@ func (o *orch) keyFor(j *job, ts PlatSpec, variant, diff string, t, tfRun runOut
 			return prefix + "|vgpr-window-overflow", "co-resident wavefronts corrupt each other's vector registers: the dispatcher places a wavefront so that its VGPRs exceed the per-lane window of cu.SimpleRegisterFile (1024 bytes = 256 registers per lane) and alias the next lane's registers of other wavefronts; observed as: " + diff + " (" + f + ")"
 		}
 	}
+	for _, f := range append(append([]string{}, t.flags...), tfRun.flags...) {
+		if strings.HasPrefix(f, "memory-response-after-wavefront-retired") {
+			parts := strings.Fields(f)
+			wit["late_memory_response"] = f
+			return prefix + "|memory-response-after-wavefront-retired|" + parts[1],
+				"a wavefront is retired (its s_endpgm completes and its register slot is released) while a memory instruction it issued is still outstanding; the late response is written into registers that may already belong to the next wavefront; observed as: " + diff + " (" + f + ")"
+		}
+	}
 	// ---- initial register state (dispatcher)
 	if fd.Found && strings.HasPrefix(fd.What, "initial-register:") {
 		reg := strings.TrimPrefix(fd.What, "initial-register:")
